@@ -105,7 +105,7 @@ class OddCharsStream(base.TreeStream):
             "texts exactly the files' texts; non-trivial as in `tree`")
 
     def cases(self, tier, rng):
-        for _ in range(400 if tier == "thorough" else 40):
+        for _ in range(250 if tier == "thorough" else 40):
             yield odd_tree(rng)
 
 
